@@ -1316,7 +1316,7 @@ pub fn variable_site_cases() -> Vec<GDoc> {
     let args_dir = |val: GValue| GDir { name: "args".into(), args: vec![("boolean0".to_string(), val)] };
     let mut out = vec![];
     for vt in [GType::Named("Boolean".into()), GType::NonNull(Box::new(GType::Named("Boolean".into()))), GType::Named("Int".into())] {
-        for site in 0..10 {
+        for site in 0..12 {
             let mut vars = vec![GVar { name: "v".into(), ty: vt.clone(), default: None }];
             let mut opdirs = vec![];
             let mut sels = vec![leaf()];
@@ -1334,6 +1334,14 @@ pub fn variable_site_cases() -> Vec<GDoc> {
                     sels = vec![GSel::Spread { name: "Fa".into(), dirs: vec![] }];
                     defs_extra.push(GDef::Frag { name: "Fa".into(), tc: "Query".into(), dirs: vec![], sels: vec![GSel::Inline { tc: Some("Query".into()), dirs: vec![], sels: vec![GSel::Spread { name: "Fb".into(), dirs: vec![] }] }] });
                     defs_extra.push(GDef::Frag { name: "Fb".into(), tc: "Query".into(), dirs: vec![], sels: vec![GSel::Field { alias: None, name: "f_Boolean_0".into(), args: vec![("a".to_string(), GValue::List(vec![GValue::Obj(vec![("k".to_string(), GValue::List(vec![v()]))])]))], dirs: vec![], sels: vec![] }] });
+                }
+                // one field, two arguments of the same type `Int!`, one declaring a default: either order
+                10 | 11 => {
+                    let mut args = vec![("y".to_string(), v()), ("d".to_string(), v()), ("ln".to_string(), GValue::List(vec![]))];
+                    if site == 11 {
+                        args.swap(0, 1);
+                    }
+                    sels = vec![GSel::Field { alias: None, name: "a".into(), args: vec![], dirs: vec![], sels: vec![GSel::Field { alias: None, name: "arg2".into(), args, dirs: vec![], sels: vec![GSel::Field { alias: None, name: "id".into(), args: vec![], dirs: vec![], sels: vec![] }] }] }];
                 }
                 _ => {}
             }
@@ -1515,5 +1523,81 @@ pub fn collect_name_collision_cases(rng: &mut Rng, n3: usize) -> Vec<GDoc> {
         }
     }
     out.extend(pick_sample(three, n3, rng));
+    out
+}
+
+/// C14: the documents of the targeted families of the rule properties (synthetic schema) as
+/// sources of the meaning-preserving rewrites: whatever state a rule keeps while it walks a
+/// document (memo tables, first-usage records, visited lists) is exercised under every order
+pub fn rewrite_source_pool(rng: &mut Rng) -> Vec<GDoc> {
+    let mut out: Vec<GDoc> = vec![];
+    for vb in ["Int", "Point", "Color"] {
+        for vk in 0..4 {
+            for dk in 0..2 {
+                for l1 in 0..4 {
+                    for d1 in [false, true] {
+                        for d2 in [false, true] {
+                            // the same location type twice (with / without location default), and a neighbour
+                            for l2 in [l1, (l1 + 1) % 4] {
+                                if let Some(d) = two_usages_case(vb, vk, dk, l1, d1, l2, d2, rng.pct(30)) {
+                                    out.push(d);
+                                }
+                            }
+                        }
+                    }
+                }
+            }
+        }
+    }
+    out.extend(variable_site_cases());
+    out.extend(pick_sample(variable_object_cases(), 300, rng));
+    out.extend(argument_sibling_cases());
+    out.extend(argument_slot_cases());
+    out.extend(directive_sibling_cases(rng, 300));
+    out.extend(directive_mix_cases(rng, 300));
+    out.extend(pick_sample(merge_exclusive_fragment_cases(), 300, rng));
+    out.extend(merge_shared_subfragment_cases());
+    out.extend(merge_argument_cases());
+    out.extend(enum_pair_cases());
+    out.extend(small_object_cases());
+    out.extend(operation_mix_cases(rng, 300));
+    out.extend(subscription_key_cases(rng, 200));
+    out.extend(merge_fragment_dag_cases(rng, 300));
+    out
+}
+
+/// variable definitions of EVERY kind of type (the first object, interface, union, enum, custom
+/// scalar, built-in scalar and input object of the schema, and an unknown name), bare and as
+/// `[T!]`, with a default value of every literal kind: the rules that look at variable definitions
+/// meet output types there (VariablesAreInputTypes is the one that reports them; the others must cope)
+pub fn variable_default_cases(si: &SchemaInfo) -> Vec<String> {
+    use graphql_tools::static_graphql::schema::TypeDefinition as TD;
+    let mut picked: Vec<String> = vec!["ZzUnknownType".to_string()];
+    let mut seen_kind = [false; 7];
+    for t in si.types() {
+        let (k, n) = match t {
+            TD::Object(o) => (0, o.name.clone()),
+            TD::Interface(o) => (1, o.name.clone()),
+            TD::Union(o) => (2, o.name.clone()),
+            TD::Enum(o) => (3, o.name.clone()),
+            TD::Scalar(o) => (if ["Int", "Float", "String", "Boolean", "ID"].contains(&o.name.as_str()) { 5 } else { 4 }, o.name.clone()),
+            TD::InputObject(o) => (6, o.name.clone()),
+        };
+        if !seen_kind[k] {
+            seen_kind[k] = true;
+            picked.push(n);
+        }
+    }
+    let lits = ["1", "1.5", "\"s\"", "true", "null", "ZZENUM", "[1]", "[]", "{a: 1}", "{}", "[[\"x\"]]", "[{a: [null]}]"];
+    let mut out = vec![];
+    for t in &picked {
+        for wrap in ["{}", "[{}!]", "{}!"] {
+            let ty = wrap.replace("{}", t);
+            for l in lits {
+                out.push(format!("query Q($v: {} = {}) {{ __typename }}", ty, l));
+            }
+            out.push(format!("query Q($v: {}) {{ __typename }}", ty));
+        }
+    }
     out
 }
